@@ -70,10 +70,10 @@ Print Assumptions C20_placeholder_refuted.
     not — with a direct type is listed by exactly one equation, which lists nothing else and whose type matches; an NLA
     unknown with an initial guess only by NLA equations; every other one (a marked constant, an unknown rescued by the
     third pass, a state that never got its index) by none. *)
-Theorem C20_one_definer_with_externals : forall s marks ivs0 es0 st es1,
+Theorem C20_one_definer_with_externals : forall s marks b ivs0 es0 st es1,
   marks_in_range s marks -> build s = Some (ivs0, es0) ->
   let U := vs_ivs (analyse_asts s ivs0 es0) in
-  loop s (loop_fuel es0) 1 false (mkCs (remark (eff s ivs0 U marks) 0 U) 0 0) es0 = Some (st, es1) ->
+  loop s (loop_fuel es0) 1 false (mkCs (map (state_rescue b) (remark (eff s ivs0 U marks) 0 U)) 0 0) es0 = Some (st, es1) ->
   own_inv (cs_ivs st) es1.
 Proof. exact ExternalOwnProofs.one_definer_with_externals. Qed.
 Print Assumptions C20_one_definer_with_externals.
@@ -290,13 +290,21 @@ Theorem C20_underconstrained_rescued_refuted :
 Proof. exact ExternalWitness.rescue_naive_refuted. Qed.
 Print Assumptions C20_underconstrained_rescued_refuted.
 
-(** ... and the rescue does not cover a state that lacks its initial value (known finding
-    C20-uninitialised-state-not-rescued): marked as external it is still reported "used in an ODE, but not initialised". *)
+(** ... and BEFORE the repair fixes/C20-uninitialised-state-rescue.diff the rescue did not cover a state that lacks its
+    initial value: marked as external it was still reported "used in an ODE, but not initialised". *)
 Theorem C20_uninitialised_state_not_rescued :
-  option_map (fun r => (r_type r, r_issues r)) (result_of (analyse_x true sysE [])) = Some (MUnderconstrained, [mkIssue RStateNotInit (0, 1)]) /\
-  option_map (fun r => (r_type r, r_issues r)) (result_of (analyse_x true sysE mark_x)) = Some (MUnderconstrained, [mkIssue RStateNotInit (0, 1)]).
+  option_map (fun r => (r_type r, r_issues r)) (result_of (analyse_xg true false false sysE [])) = Some (MUnderconstrained, [mkIssue RStateNotInit (0, 1)]) /\
+  option_map (fun r => (r_type r, r_issues r)) (result_of (analyse_xg true false false sysE mark_x)) = Some (MUnderconstrained, [mkIssue RStateNotInit (0, 1)]).
 Proof. exact ExternalWitness2.uninitialised_state_not_rescued. Qed.
 Print Assumptions C20_uninitialised_state_not_rescued.
+
+(** With the repair it becomes the external variable of a valid model, its ODE the placeholder equation. *)
+Example C20_uninitialised_state_rescued :
+  option_map (fun r => (r_type r, r_issues r)) (result_of (analyse_x true sysE [])) = Some (MUnderconstrained, [mkIssue RStateNotInit (0, 1)]) /\
+  option_map (fun r => (r_type r, map (fun a => (av_var a, av_type a, av_eqs a)) (r_vars r), map (fun e => (ae_id e, ae_type e)) (r_eqs r)))
+             (result_of (analyse_x true sysE mark_x)) = Some (MOde, [((0, 1), AExternal, [0])], [(Some 1001, QExternal)]).
+Proof. exact ExternalWitness2.uninitialised_state_rescued. Qed.
+Print Assumptions C20_uninitialised_state_rescued.
 
 (* NOT PROVED (the strong form): if the system with the unknown classes given an initial value (i.e. as constants) is valid,
    then the system with those classes marked as external is valid — the weakest hypothesis found ("only UNUSED issues" is not
